@@ -63,6 +63,7 @@ func runTreeScenario(t *testing.T, ctx context.Context, rep *vfutil.Report, roun
 		InitPerm: map[string]string{"o": "owner", "w": "none", "x": "none", "y": "none"}}
 	w := newWorld(meta)
 	c := newChain(w)
+	c.enc, c.pathEnc = (round+1)%3, (round+1)%3 // identity spelling of the rendered records, see Chain.spell
 	members := map[string]*member{}
 	for _, a := range meta.AccSeq {
 		var v recordverifier.AcceptorVerifier = recordverifier.NewValidateFull()
